@@ -212,6 +212,9 @@ class _SNum:
         return self._e
 
     def _pin_to(self, v):
+        if _CTX is not None and _CTX.last_was_stub:
+            _CTX.last_was_stub = False
+            return
         if _CTX is not None:
             self._pin = _lit(self._e, v)
             self._pin_run = _RUN_ID[0]
@@ -670,6 +673,7 @@ class _Ctx:
         self.prefix_sites = []
         self.dead = False
         self.unknown_as_feasible = False
+        self.last_was_stub = False
         self.abs = None
         self.asolver = None
 
@@ -869,6 +873,10 @@ def _concretise(e, in_dunder=False):
         v, excl = d[1], d[2]
         ctx.trace.append(d)
         ctx.sites.append(site)
+        if d[0] == 'r':
+            # formatting stub: the representative value only goes into a message, the path condition is not narrowed
+            ctx.last_was_stub = True
+            return v
         if d[0] == 'c' and ctx.pos == len(ctx.prefix):
             # this is the freshly scheduled sibling: schedule the next one (before e == v is asserted)
             _schedule_next_value(ctx, e, excl, site, in_dunder)
@@ -890,7 +898,7 @@ def _concretise(e, in_dunder=False):
         STATS.stub_sites.add(stub)
         ctx.trace.append(('r', v, ()))
         ctx.sites.append(site)
-        ctx.add(e == _lit(e, v))
+        ctx.last_was_stub = True  # the value only goes into a message: no constraint, no pin
         return v
     ctx.stats.concretisations += 1
     ctx.n_conc += 1
